@@ -152,3 +152,458 @@ Section Algebra.
     apply (Zsum_delta Fth). lia.
   Qed.
 End Algebra.
+
+(* ===================================================================== B *)
+From Coq Require Import Reals Lra.
+(* Reals binds the key F to Rfun_scope; give it back to the field scope *)
+Delimit Scope F_scope with F.
+
+#[global] Instance ROps9 : FOps R := {
+  F0 := 0%R; F1 := 1%R; Fadd := Rplus; Fmul := Rmult; Fsub := Rminus;
+  Fopp := Ropp; Fdiv := Rdiv; Finv := Rinv }.
+Definition Rleb (x y : R) : bool := if Rle_dec x y then true else false.
+
+Lemma Rth : field_theory (F0 : R) F1 Fadd Fmul Fsub Fopp Fdiv Finv (@eq R).
+Proof. exact RealField.Rfield. Qed.
+
+Ltac runfold := cbv [F0 F1 Fadd Fmul Fsub Fopp Fdiv Finv ROps9] in *.
+
+Lemma Rleb_true x y : Rleb x y = true <-> (x <= y)%R.
+Proof. unfold Rleb. destruct (Rle_dec x y); split; auto; discriminate. Qed.
+Lemma Rltb_true x y : ltb Rleb x y = true <-> (x < y)%R.
+Proof.
+  unfold ltb, Rleb. destruct (Rle_dec y x); cbn; split; intros;
+    solve [lra | discriminate | reflexivity].
+Qed.
+Lemma Rltb_false x y : ltb Rleb x y = false <-> (y <= x)%R.
+Proof.
+  unfold ltb, Rleb. destruct (Rle_dec y x); cbn; split; intros;
+    solve [lra | discriminate | reflexivity].
+Qed.
+
+Section Order.
+  Local Open Scope R_scope.
+
+  (* the linear scan returns the least index in [i0, i0+fuel) with x < g i *)
+  Lemma first_gt_from_spec (g : Z -> R) (x : R) fuel : forall i0,
+    let r := first_gt_from Rleb g x fuel i0 in
+    (i0 <= r <= i0 + Z.of_nat fuel)%Z /\
+    (forall j, (i0 <= j < r)%Z -> g j <= x) /\
+    ((r < i0 + Z.of_nat fuel)%Z -> x < g r).
+  Proof.
+    induction fuel as [|f IH]; intros i0; cbn [first_gt_from].
+    - split; [lia|]. split; intros; lia.
+    - destruct (ltb Rleb x (g i0)) eqn:E.
+      + apply Rltb_true in E. split; [lia|]. split; [intros; lia | auto].
+      + apply Rltb_false in E. specialize (IH (i0 + 1)%Z). cbv zeta in IH.
+        destruct IH as (A & B & C). split; [lia|]. split.
+        * intros j Hj. destruct (Z.eq_dec j i0) as [->|N]; [exact E|apply B; lia].
+        * intros H. apply C. lia.
+  Qed.
+
+  Lemma first_gt_spec (g : Z -> R) n (x : R) : (0 <= n)%Z ->
+    let r := first_gt Rleb g n x in
+    (0 <= r <= n)%Z /\ (forall j, (0 <= j < r)%Z -> g j <= x) /\ ((r < n)%Z -> x < g r).
+  Proof.
+    intros Hn. unfold first_gt.
+    pose proof (first_gt_from_spec g x (Z.to_nat n) 0%Z) as H. cbv zeta in H.
+    rewrite Z2Nat.id in H by lia. exact H.
+  Qed.
+
+  (* x between the first and (strictly) the last grid point: the cell index
+     of _point_vector and of scipy coincide and lie in [0, n-2]; in bounds *)
+  Lemma locate_range (g : Z -> R) n (x : R) : (1 <= n)%Z ->
+    g 0%Z <= x -> x < g (n - 1)%Z ->
+    rgi_oob Rleb g n x = false /\ (0 <= pv_index Rleb g n x <= n - 2)%Z /\
+    g (pv_index Rleb g n x) <= x < g (pv_index Rleb g n x + 1)%Z.
+  Proof.
+    intros Hn H0 H1.
+    destruct (first_gt_spec g n x ltac:(lia)) as (A & B & C).
+    set (r := first_gt Rleb g n x) in *.
+    assert (R1 : (1 <= r)%Z).
+    { destruct (Z_lt_ge_dec r 1) as [L|]; [|lia].
+      assert (r = 0)%Z by lia. specialize (C ltac:(lia)). rewrite H in C. lra. }
+    assert (R2 : (r <= n - 1)%Z).
+    { destruct (Z_le_gt_dec r (n - 1)) as [|L]; [assumption|].
+      specialize (B (n - 1)%Z ltac:(lia)). lra. }
+    unfold rgi_oob, pv_index. fold r.
+    assert (E1 : ltb Rleb x (g 0%Z) = false) by (apply Rltb_false; lra).
+    assert (E2 : ltb Rleb (g (n - 1)%Z) x = false) by (apply Rltb_false; lra).
+    rewrite E1, E2. cbn [orb]. split; [reflexivity|]. split; [lia|].
+    replace (Z.max 0 (r - 1)) with (r - 1)%Z by lia.
+    replace (r - 1 + 1)%Z with r by lia.
+    split; [apply B; lia | apply C; lia].
+  Qed.
+
+  (* ----------------------------------------------------------- grids *)
+  Variables (nx ny nz : Z) (ndx ndy ndz : Z -> R).
+
+  Definition strictly_increasing (n : Z) (nd : Z -> R) : Prop :=
+    forall i, (0 <= i < n)%Z -> nd i < nd (i + 1)%Z.
+
+  Lemma strictly_increasing_le n nd : strictly_increasing n nd ->
+    forall i j, (0 <= i <= j)%Z -> (j <= n)%Z -> nd i <= nd j.
+  Proof.
+    intros H i j Hij Hj.
+    replace j with (i + Z.of_nat (Z.to_nat (j - i)))%Z in * by lia.
+    induction (Z.to_nat (j - i)) as [|m IH].
+    - rewrite Z.add_0_r. lra.
+    - replace (i + Z.of_nat (S m))%Z with (i + Z.of_nat m + 1)%Z in * by lia.
+      specialize (IH ltac:(lia) ltac:(lia)).
+      specialize (H (i + Z.of_nat m)%Z ltac:(lia)). lra.
+  Qed.
+
+  (* second to second-last cell *)
+  Definition inner_range (n : Z) (nd : Z -> R) (x : R) : Prop :=
+    nd 1%Z <= x <= nd (n - 1)%Z.
+
+  Lemma comp_grid_range el c d n nd x : (2 <= n)%Z -> strictly_increasing n nd ->
+    inner_range n nd x ->
+    cg el c d nd 0%Z <= x /\ x < cg el c d nd (cn el c d n - 1)%Z /\ (1 <= cn el c d n)%Z.
+  Proof.
+    intros Hn Hinc [Hlo Hhi].
+    pose proof (Hinc 0%Z ltac:(lia)) as I0.
+    pose proof (Hinc (n - 1)%Z ltac:(lia)) as I1.
+    replace (n - 1 + 1)%Z with n in I1 by lia. replace (0 + 1)%Z with 1%Z in I0 by lia.
+    unfold cg, cn. destruct (on_centers el c d).
+    - unfold centers. replace (n - 1 + 1)%Z with n by lia.
+      replace (0 + 1)%Z with 1%Z by lia. runfold. repeat split; try lra; lia.
+    - replace (n + 1 - 1)%Z with n by lia. repeat split; try lra; lia.
+  Qed.
+
+  Lemma comp_locate el c d n nd x : (2 <= n)%Z -> strictly_increasing n nd ->
+    inner_range n nd x ->
+    rgi_oob Rleb (cg el c d nd) (cn el c d n) x = false /\
+    (0 <= pv_index Rleb (cg el c d nd) (cn el c d n) x <= cn el c d n - 2)%Z.
+  Proof.
+    intros Hn Hinc Hx.
+    destruct (comp_grid_range el c d n nd x Hn Hinc Hx) as (A & B & C).
+    destruct (locate_range _ _ _ C A B) as (P & Q & _). auto.
+  Qed.
+
+  Hypothesis Hnx : (2 <= nx)%Z.
+  Hypothesis Hny : (2 <= ny)%Z.
+  Hypothesis Hnz : (2 <= nz)%Z.
+  Hypothesis Ix : strictly_increasing nx ndx.
+  Hypothesis Iy : strictly_increasing ny ndy.
+  Hypothesis Iz : strictly_increasing nz ndz.
+
+  Lemma mask_false x y z :
+    inner_range nx ndx x -> inner_range ny ndy y -> inner_range nz ndz z ->
+    outer_mask Rleb nx ny nz ndx ndy ndz x y z = false.
+  Proof.
+    intros [A1 A2] [B1 B2] [C1 C2]. unfold outer_mask.
+    repeat match goal with
+    | |- context [ltb Rleb ?a ?b] =>
+        let E := fresh in assert (E : ltb Rleb a b = false) by (apply Rltb_false; lra);
+        rewrite E; clear E
+    end. reflexivity.
+  Qed.
+
+  Lemma mask_true_iff x y z :
+    outer_mask Rleb nx ny nz ndx ndy ndz x y z = true <->
+    ~ (inner_range nx ndx x /\ inner_range ny ndy y /\ inner_range nz ndz z).
+  Proof.
+    unfold outer_mask, inner_range. rewrite !orb_true_iff, !Rltb_true. lra.
+  Qed.
+
+  Lemma outside_false x y z :
+    inner_range nx ndx x -> inner_range ny ndy y -> inner_range nz ndz z ->
+    pv_outside Rleb nx ny nz ndx ndy ndz x y z = false.
+  Proof using Hnx Hny Hnz Ix Iy Iz.
+    intros [A1 A2] [B1 B2] [C1 C2]. unfold pv_outside.
+    pose proof (Ix 0%Z ltac:(lia)). pose proof (Ix (nx - 1)%Z ltac:(lia)).
+    pose proof (Iy 0%Z ltac:(lia)). pose proof (Iy (ny - 1)%Z ltac:(lia)).
+    pose proof (Iz 0%Z ltac:(lia)). pose proof (Iz (nz - 1)%Z ltac:(lia)).
+    replace (nx - 1 + 1)%Z with nx in * by lia. replace (ny - 1 + 1)%Z with ny in * by lia.
+    replace (nz - 1 + 1)%Z with nz in * by lia. replace (0 + 1)%Z with 1%Z in * by lia.
+    repeat match goal with
+    | |- context [ltb Rleb ?a ?b] =>
+        let E := fresh in assert (E : ltb Rleb a b = false) by (apply Rltb_false; lra);
+        rewrite E; clear E
+    end. reflexivity.
+  Qed.
+
+  (* one component of a receiver in the inner range *)
+  Lemma comp_interp_transpose el c (v : Z -> Z -> Z -> R) x y z :
+    inner_range nx ndx x -> inner_range ny ndy y -> inner_range nz ndz z ->
+    comp_interp Rleb nx ny nz ndx ndy ndz el c v x y z
+    = Some (sum3 (cn el c 0 nx) (cn el c 1 ny) (cn el c 2 nz)
+              (fun i j k => (comp_source Rleb nx ny nz ndx ndy ndz el c x y z i j k * v i j k)%F)).
+  Proof using Hnx Hny Hnz Ix Iy Iz.
+    intros Rx Ry Rz. unfold comp_interp, comp_source.
+    destruct (comp_locate el c 0 nx ndx x Hnx Ix Rx) as [Ox Px].
+    destruct (comp_locate el c 1 ny ndy y Hny Iy Ry) as [Oy Py].
+    destruct (comp_locate el c 2 nz ndz z Hnz Iz Rz) as [Oz Pz].
+    apply (comp_transpose Rth); assumption.
+  Qed.
+
+  Variable eps : R.
+
+  (* get_receiver with given component flags *)
+  Lemma receiver_u_transpose (u1 u2 u3 el : bool) (fx fy fz : Z -> Z -> Z -> R)
+        x y z (f1 f2 f3 : R) :
+    inner_range nx ndx x -> inner_range ny ndy y -> inner_range nz ndz z ->
+    (f1 = 0 \/ u1 = true) -> (f2 = 0 \/ u2 = true) -> (f3 = 0 \/ u3 = true) ->
+    exists vx vy vz,
+      point_vector_gen Rleb nx ny nz ndx ndy ndz el x y z f1 f2 f3 = Some (vx, vy, vz) /\
+      get_receiver_u Rleb nx ny nz ndx ndy ndz u1 u2 u3 el fx fy fz x y z f1 f2 f3
+      = Some (inner3 nx ny nz el vx vy vz fx fy fz).
+  Proof using Hnx Hny Hnz Ix Iy Iz.
+    intros Rx Ry Rz H1 H2 H3.
+    unfold point_vector_gen. rewrite outside_false by assumption.
+    do 3 eexists. split; [reflexivity|].
+    unfold get_receiver_u. rewrite mask_false by assumption.
+    rewrite !comp_interp_transpose by assumption.
+    rewrite (rx_step Rth u1 f1) by assumption.
+    rewrite (rx_step Rth u2 f2) by assumption.
+    rewrite (rx_step Rth u3 f3) by assumption.
+    f_equal. unfold inner3. rewrite !(sum3_scale3 Rth). runfold. ring.
+  Qed.
+
+  Lemma receiver_transpose (el : bool) (fx fy fz : Z -> Z -> Z -> R) x y z (f1 f2 f3 : R) :
+    inner_range nx ndx x -> inner_range ny ndy y -> inner_range nz ndz z ->
+    (f1 = 0 \/ used Rleb eps f1 = true) -> (f2 = 0 \/ used Rleb eps f2 = true) ->
+    (f3 = 0 \/ used Rleb eps f3 = true) ->
+    exists vx vy vz,
+      point_vector_gen Rleb nx ny nz ndx ndy ndz el x y z f1 f2 f3 = Some (vx, vy, vz) /\
+      get_receiver Rleb nx ny nz ndx ndy ndz eps el fx fy fz x y z f1 f2 f3
+      = Some (inner3 nx ny nz el vx vy vz fx fy fz).
+  Proof using Hnx Hny Hnz Ix Iy Iz.
+    intros. unfold get_receiver. now apply receiver_u_transpose.
+  Qed.
+
+  (* complex fields *)
+  Lemma receiver_c_transpose (el : bool) (fxr fyr fzr fxi fyi fzi : Z -> Z -> Z -> R)
+        x y z (f1 f2 f3 : R) :
+    inner_range nx ndx x -> inner_range ny ndy y -> inner_range nz ndz z ->
+    (f1 = 0 \/ used Rleb eps f1 = true) -> (f2 = 0 \/ used Rleb eps f2 = true) ->
+    (f3 = 0 \/ used Rleb eps f3 = true) ->
+    exists vx vy vz,
+      point_vector_gen Rleb nx ny nz ndx ndy ndz el x y z f1 f2 f3 = Some (vx, vy, vz) /\
+      get_receiver_c Rleb nx ny nz ndx ndy ndz eps el fxr fyr fzr fxi fyi fzi x y z f1 f2 f3
+      = Some (inner3 nx ny nz el vx vy vz fxr fyr fzr, inner3 nx ny nz el vx vy vz fxi fyi fzi).
+  Proof using Hnx Hny Hnz Ix Iy Iz.
+    intros Rx Ry Rz H1 H2 H3.
+    destruct (receiver_transpose el fxr fyr fzr x y z f1 f2 f3 Rx Ry Rz H1 H2 H3)
+      as (vx & vy & vz & P & Q).
+    destruct (receiver_transpose el fxi fyi fzi x y z f1 f2 f3 Rx Ry Rz H1 H2 H3)
+      as (vx' & vy' & vz' & P' & Q').
+    rewrite P in P'. inversion P'; subst vx' vy' vz'.
+    exists vx, vy, vz. split; [exact P|]. unfold get_receiver_c. now rewrite Q, Q'.
+  Qed.
+
+  (* several receivers in one call *)
+  Lemma receiver_batch_transpose (el : bool) (fx fy fz : Z -> Z -> Z -> R)
+        (rs : list ((R * R * R) * (R * R * R))) :
+    Forall (fun r => inner_range nx ndx (fst (fst (fst r))) /\
+                     inner_range ny ndy (snd (fst (fst r))) /\
+                     inner_range nz ndz (snd (fst r)) /\
+                     (rx_f1 r = 0 \/ used Rleb eps (rx_f1 r) = true) /\
+                     (rx_f2 r = 0 \/ used Rleb eps (rx_f2 r) = true) /\
+                     (rx_f3 r = 0 \/ used Rleb eps (rx_f3 r) = true)) rs ->
+    Forall2 (fun r o => exists vx vy vz,
+               point_vector_gen Rleb nx ny nz ndx ndy ndz el
+                 (fst (fst (fst r))) (snd (fst (fst r))) (snd (fst r))
+                 (rx_f1 r) (rx_f2 r) (rx_f3 r) = Some (vx, vy, vz) /\
+               o = Some (inner3 nx ny nz el vx vy vz fx fy fz))
+            rs (get_receiver_batch Rleb nx ny nz ndx ndy ndz eps el fx fy fz rs).
+  Proof using Hnx Hny Hnz Ix Iy Iz.
+    intros HF. unfold get_receiver_batch.
+    set (u1 := existsb _ rs). set (u2 := existsb _ rs). set (u3 := existsb _ rs).
+    assert (U : forall r, In r rs ->
+                (rx_f1 r = 0 \/ u1 = true) /\ (rx_f2 r = 0 \/ u2 = true) /\
+                (rx_f3 r = 0 \/ u3 = true)).
+    { intros r Hr. rewrite Forall_forall in HF.
+      destruct (HF r Hr) as (_ & _ & _ & [A|A] & [B|B] & [C|C]);
+        repeat split; auto; right; apply existsb_exists; exists r; auto. }
+    clearbody u1 u2 u3.
+    induction rs as [|r rs IH]; cbn [map]; constructor.
+    - inversion HF as [|? ? (Rx & Ry & Rz & _) _]; subst.
+      destruct (U r (or_introl eq_refl)) as (A & B & C).
+      destruct (receiver_u_transpose u1 u2 u3 el fx fy fz _ _ _ _ _ _ Rx Ry Rz A B C)
+        as (vx & vy & vz & P & Q).
+      exists vx, vy, vz. auto.
+    - apply IH; [now inversion HF|]. intros r' Hr'. apply U. now right.
+  Qed.
+
+  (* NaN policy *)
+  Lemma receiver_nan (u1 u2 u3 el : bool) (fx fy fz : Z -> Z -> Z -> R) x y z (f1 f2 f3 : R) :
+    ~ (inner_range nx ndx x /\ inner_range ny ndy y /\ inner_range nz ndz z) ->
+    get_receiver_u Rleb nx ny nz ndx ndy ndz u1 u2 u3 el fx fy fz x y z f1 f2 f3 = None.
+  Proof.
+    intros H. apply mask_true_iff in H. unfold get_receiver_u. now rewrite H.
+  Qed.
+
+  (* eight distinct targets per component *)
+  Lemma targets_nodup el c x y z :
+    inner_range nx ndx x -> inner_range ny ndy y -> inner_range nz ndz z ->
+    NoDup (comp_targets Rleb nx ny nz ndx ndy ndz el c x y z).
+  Proof using Hnx Hny Hnz Ix Iy Iz.
+    intros Rx Ry Rz. unfold comp_targets.
+    destruct (comp_locate el c 0 nx ndx x Hnx Ix Rx) as [_ Px].
+    destruct (comp_locate el c 1 ny ndy y Hny Iy Ry) as [_ Py].
+    destruct (comp_locate el c 2 nz ndz z Hnz Iz Rz) as [_ Pz].
+    apply pv_targets_nodup; lia.
+  Qed.
+End Order.
+
+(* ------------------------------------------------------- 1-D statement *)
+Section OneD.
+  Local Open Scope R_scope.
+  Variables (n : Z) (g : Z -> R).
+  Hypothesis Hn : (2 <= n)%Z.
+  Hypothesis Inc : strictly_increasing (n - 1) g.     (* g 0 < g 1 < ... < g (n-1) *)
+
+  Lemma lin_interp_weights (u : Z -> R) (x : R) : g 0%Z <= x <= g (n - 1)%Z ->
+    lin_interp Rleb g n u x = Some (Zsum 0 n (fun i => (s1d Rleb g n x i * u i)%F)).
+  Proof using Hn Inc.
+    intros [H0 H1]. unfold lin_interp.
+    assert (OB : rgi_oob Rleb g n x = false).
+    { unfold rgi_oob.
+      assert (E1 : ltb Rleb x (g 0%Z) = false) by (apply Rltb_false; lra).
+      assert (E2 : ltb Rleb (g (n - 1)%Z) x = false) by (apply Rltb_false; lra).
+      now rewrite E1, E2. }
+    rewrite OB. f_equal.
+    destruct (Rlt_le_dec x (g (n - 1)%Z)) as [Hlt|Hge].
+    - destruct (locate_range g n x ltac:(lia) H0 Hlt) as (_ & P & _).
+      rewrite (s1d_inner Rth) by exact P. cbv zeta.
+      unfold rgi_dist, rdist.
+      replace (rgi_index Rleb g n x) with (pv_index Rleb g n x)
+        by (unfold rgi_index, pv_index in *; lia).
+      reflexivity.
+    - assert (Ex : x = g (n - 1)%Z) by lra.
+      destruct (first_gt_spec g n x ltac:(lia)) as (A & B & C).
+      set (r := first_gt Rleb g n x) in *.
+      assert (Er : r = n).
+      { destruct (Z.eq_dec r n) as [|N]; [assumption|].
+        specialize (C ltac:(lia)).
+        pose proof (strictly_increasing_le (n - 1) g Inc r (n - 1)%Z ltac:(lia) ltac:(lia)). lra. }
+      assert (Ep : pv_index Rleb g n x = (n - 1)%Z) by (unfold pv_index; fold r; lia).
+      rewrite (s1d_last Rth) by (lia || exact Ep).
+      unfold rgi_dist. replace (rgi_index Rleb g n x) with (n - 2)%Z
+        by (unfold rgi_index; fold r; lia).
+      replace (n - 2 + 1)%Z with (n - 1)%Z by lia.
+      pose proof (Inc (n - 2)%Z ltac:(lia)) as I. replace (n - 2 + 1)%Z with (n - 1)%Z in I by lia.
+      rewrite Ex. runfold. field. lra.
+  Qed.
+
+  Lemma lin_interp_nan (u : Z -> R) (x : R) : x < g 0%Z \/ g (n - 1)%Z < x ->
+    lin_interp Rleb g n u x = None.
+  Proof.
+    intros H. unfold lin_interp, rgi_oob.
+    destruct H as [H|H]; apply Rltb_true in H; rewrite H; [reflexivity|].
+    now rewrite orb_true_r.
+  Qed.
+End OneD.
+
+(* ============================================================ reciprocity *)
+(* Pure algebra: a symmetric operator, exact solutions for two sources that
+   are the same multiple c of two sampling vectors. *)
+Section Reciprocity.
+  Context {F : Type} {O : FOps F}.
+  Hypothesis Fth : field_theory F0 F1 Fadd Fmul Fsub Fopp Fdiv Finv (@eq F).
+  Add Field Ffr : Fth.
+  Variable V : Type.
+  Variable inner : V -> V -> F.
+  Variable scale : F -> V -> V.
+  Variable A : V -> V.
+  Hypothesis inner_sym : forall a b, inner a b = inner b a.
+  Hypothesis inner_scale : forall c a b, inner (scale c a) b = (c * inner a b)%F.
+  Hypothesis A_sym : forall a b, inner (A a) b = inner a (A b).
+
+  Lemma reciprocity_abstract (c : F) (pa pb ea eb : V) : c <> 0%F ->
+    A ea = scale c pa -> A eb = scale c pb -> inner pb ea = inner pa eb.
+  Proof using Fth inner_sym inner_scale A_sym.
+    intros Hc Ha Hb.
+    assert (E : (c * inner pb ea)%F = (c * inner pa eb)%F).
+    { rewrite <- !inner_scale, <- Ha, <- Hb.
+      rewrite A_sym. apply inner_sym. }
+    assert (G : forall p q : F, (c * p)%F = (c * q)%F -> p = q).
+    { intros p q H.
+      assert (p = (c * p) / c)%F by (field; exact Hc).
+      assert (q = (c * q) / c)%F by (field; exact Hc).
+      congruence. }
+    now apply G.
+  Qed.
+End Reciprocity.
+
+Section InnerProps.
+  Context {F : Type} {O : FOps F}.
+  Hypothesis Fth : field_theory F0 F1 Fadd Fmul Fsub Fopp Fdiv Finv (@eq F).
+  Add Field Ffp : Fth.
+  Definition T3 : Type := ((Z -> Z -> Z -> F) * (Z -> Z -> Z -> F) * (Z -> Z -> Z -> F))%type.
+  Definition inner3t (nx ny nz : Z) (el : bool) (a b : T3) : F :=
+    inner3 nx ny nz el (fst (fst a)) (snd (fst a)) (snd a) (fst (fst b)) (snd (fst b)) (snd b).
+  Definition scale3t (c : F) (a : T3) : T3 :=
+    (scale3 c (fst (fst a)), scale3 c (snd (fst a)), scale3 c (snd a)).
+
+  Lemma inner3t_sym nx ny nz el a b : inner3t nx ny nz el a b = inner3t nx ny nz el b a.
+  Proof using Fth.
+    unfold inner3t, inner3. f_equal; [f_equal|]; apply sum3_ext; intros; ring.
+  Qed.
+
+  Lemma inner3t_scale nx ny nz el c a b :
+    inner3t nx ny nz el (scale3t c a) b = (c * inner3t nx ny nz el a b)%F.
+  Proof using Fth.
+    unfold inner3t, inner3, scale3t. cbn [fst snd]. rewrite !(sum3_scale3 Fth). ring.
+  Qed.
+End InnerProps.
+
+Section ReciprocityR.
+  Local Open Scope R_scope.
+  Variables (nx ny nz : Z) (ndx ndy ndz : Z -> R) (eps : R).
+  Hypothesis Hnx : (2 <= nx)%Z.
+  Hypothesis Hny : (2 <= ny)%Z.
+  Hypothesis Hnz : (2 <= nz)%Z.
+  Hypothesis Ix : strictly_increasing nx ndx.
+  Hypothesis Iy : strictly_increasing ny ndy.
+  Hypothesis Iz : strictly_increasing nz ndz.
+  (* the system operator on edge fields, symmetric for the bilinear edge
+     inner product (C02: curl^T M_f curl - M_e with symmetric masses) *)
+  Variable A : @T3 R -> @T3 R.
+  Hypothesis A_sym : forall a b, inner3t nx ny nz true (A a) b = inner3t nx ny nz true a (A b).
+
+  Lemma reciprocity_receivers (c : R) xa ya za a1 a2 a3 xb yb zb b1 b2 b3 pa pb ea eb :
+    c <> 0 ->
+    inner_range nx ndx xa -> inner_range ny ndy ya -> inner_range nz ndz za ->
+    inner_range nx ndx xb -> inner_range ny ndy yb -> inner_range nz ndz zb ->
+    (a1 = 0 \/ used Rleb eps a1 = true) -> (a2 = 0 \/ used Rleb eps a2 = true) ->
+    (a3 = 0 \/ used Rleb eps a3 = true) ->
+    (b1 = 0 \/ used Rleb eps b1 = true) -> (b2 = 0 \/ used Rleb eps b2 = true) ->
+    (b3 = 0 \/ used Rleb eps b3 = true) ->
+    point_vector Rleb nx ny nz ndx ndy ndz xa ya za a1 a2 a3 = Some pa ->
+    point_vector Rleb nx ny nz ndx ndy ndz xb yb zb b1 b2 b3 = Some pb ->
+    A ea = scale3t c pa -> A eb = scale3t c pb ->
+    get_receiver Rleb nx ny nz ndx ndy ndz eps true (fst (fst ea)) (snd (fst ea)) (snd ea)
+                 xb yb zb b1 b2 b3
+    = get_receiver Rleb nx ny nz ndx ndy ndz eps true (fst (fst eb)) (snd (fst eb)) (snd eb)
+                   xa ya za a1 a2 a3.
+  Proof using Hnx Hny Hnz Ix Iy Iz A_sym.
+    intros Hc Ra1 Ra2 Ra3 Rb1 Rb2 Rb3 A1 A2 A3 B1 B2 B3 Pa Pb Sa Sb.
+    destruct (receiver_transpose nx ny nz ndx ndy ndz Hnx Hny Hnz Ix Iy Iz eps true
+                (fst (fst ea)) (snd (fst ea)) (snd ea) xb yb zb b1 b2 b3
+                Rb1 Rb2 Rb3 B1 B2 B3) as (vx & vy & vz & P & Q).
+    destruct (receiver_transpose nx ny nz ndx ndy ndz Hnx Hny Hnz Ix Iy Iz eps true
+                (fst (fst eb)) (snd (fst eb)) (snd eb) xa ya za a1 a2 a3
+                Ra1 Ra2 Ra3 A1 A2 A3) as (wx & wy & wz & P' & Q').
+    unfold point_vector in Pa, Pb. rewrite Pb in P. rewrite Pa in P'.
+    inversion P; inversion P'; subst pa pb.
+    rewrite Q, Q'. f_equal.
+    exact (reciprocity_abstract Rth (@T3 R) (inner3t nx ny nz true) scale3t A
+             (inner3t_sym Rth nx ny nz true) (inner3t_scale Rth nx ny nz true) A_sym
+             c (wx, wy, wz) (vx, vy, vz) ea eb Hc Sa Sb).
+  Qed.
+End ReciprocityR.
+
+(* ------------------------------------------------ helpers for the examples *)
+Lemma strictly_increasing_IZR n : strictly_increasing n IZR.
+Proof. intros i _. rewrite plus_IZR. lra. Qed.
+
+Lemma used_iff (eps f : R) : used Rleb eps f = true <-> (eps < Rabs f)%R.
+Proof.
+  unfold used, Fabs. rewrite Rltb_true. unfold Rleb. runfold.
+  destruct (Rle_dec 0 f) as [H|H].
+  - rewrite Rabs_pos_eq by exact H. tauto.
+  - rewrite Rabs_left by lra. tauto.
+Qed.
